@@ -32,6 +32,22 @@ theorem checkTree_sound (g : Grammar) (A : String) (s : String) (t : DTree)
     (h : t.valid g = true ∧ t.closed = true ∧ t.sym = A ∧ t.yieldC g = s.toList) : InLang g A s.toList :=
   ⟨t, h.1, h.2.1, h.2.2.1, h.2.2.2⟩
 
+/-- the two verified references can never disagree: a tree accepted by the tree checker forces the
+recognizer's answer to be `true` (so "parser yields a certified tree" and "recognizer rejects" on the
+same input is impossible for every grammar and string) -/
+theorem checkTree_recognize (g : Grammar) (A : String) (s : String) (t : DTree) (b : Bool)
+    (h0 : isNT g "" = false) (hA : isNT g A = true)
+    (h : t.valid g = true ∧ t.closed = true ∧ t.sym = A ∧ t.yieldC g = s.toList)
+    (hr : recognize g A s.toList = some b) : b = true :=
+  (recognize_inLang h0 hA hr).2 (checkTree_sound g A s t h)
+
+/-- a string rejected by the recognizer has no derivation tree at all -/
+theorem reject_no_tree (g : Grammar) (A : String) (s : String)
+    (h0 : isNT g "" = false) (hA : isNT g A = true) (hr : recognize g A s.toList = some false) :
+    ¬ ∃ t : DTree, t.valid g = true ∧ t.closed = true ∧ t.sym = A ∧ t.yieldC g = s.toList := by
+  rintro ⟨t, h⟩
+  exact Bool.false_ne_true (checkTree_recognize g A s t false h0 hA h hr)
+
 /-! non-vacuity: a nullable, left-recursive, ambiguous grammar -/
 def gEx : Grammar := [("<s>", [["<s>", "<s>"], ["a"], []])]
 example : recognize gEx "<s>" "aaa".toList = some true ∧ recognize gEx "<s>" "ab".toList = some false := by decide
